@@ -45,8 +45,9 @@ def single_point_values(system, kpts, names, ibands):
     for k in kpts:
         dk = cls(system, grid=grid1, dK=np.array(k, dtype=float), fftlib="numpy")
         for n in names:
-            out[n].append(TABS[n](ibands=ibands)(dk).data[0])
-    return {n: np.array(v) for n, v in out.items()}
+            out[n].append(TABS[n]()(dk).data[0])          # all bands: the selection is applied below, by plain indexing
+    sel = slice(None) if ibands is None else [int(b) for b in ibands]
+    return {n: np.array(v)[:, sel] for n, v in out.items()}
 
 
 def check_tab(cfg, system, ref, r, desc, rec):
